@@ -149,7 +149,7 @@ func (x *fx) eval(e *Expr, env *specEnv) *Val {
 		if env.pkg != nil {
 			if obj := env.pkg.Scope().Lookup(e.Name); obj != nil {
 				if c, ok := obj.(*types.Const); ok {
-					return x.constVal(c.Val(), c.Type().Underlying())
+					return x.pkgConst(c)
 				}
 			}
 		}
@@ -335,13 +335,47 @@ func mentions(e *Expr, v string) bool {
 	return false
 }
 
+// indexedBases lists the distinct sub-expressions X with X[v] in e.
+func indexedBases(e *Expr, v string, out *[]*Expr) {
+	if e == nil {
+		return
+	}
+	if (e.Op == "forall" || e.Op == "exists") && e.Name == v {
+		return
+	}
+	if e.Op == "index" && e.Args[1].Op == "id" && e.Args[1].Name == v && !mentions(e.Args[0], v) {
+		key := e.Args[0].String()
+		dup := false
+		for _, o := range *out {
+			if o.String() == key {
+				dup = true
+			}
+		}
+		if !dup {
+			*out = append(*out, e.Args[0])
+		}
+	}
+	for _, a := range e.Args {
+		indexedBases(a, v, out)
+	}
+}
+
+// evalQuant translates a quantifier.  The bound variable is represented as an
+// absolute row index of a slice it indexes, so that the select term carries a
+// bare variable (a solver trigger without arithmetic).  When the body indexes
+// several slices by the bound variable, one logically equivalent copy per
+// slice is emitted and the copies are conjoined, so each row's select term can
+// trigger the instantiation.
 func (x *fx) evalQuant(e *Expr, env *specEnv) *Val {
-	q := e.Op
-	name := "|" + e.Name + "|"
-	bv := &Val{T: tInt, S: name}
 	bodyE := e.Args[len(e.Args)-1]
-	// choose the row offset of the first X[k] so that the bound variable is the absolute row index
-	if base := firstIndexedBy(bodyE, e.Name); base != nil && !mentions(base, e.Name) {
+	var bases []*Expr
+	indexedBases(bodyE, e.Name, &bases)
+	if len(bases) > 3 {
+		bases = bases[:3]
+	}
+	var offs []string
+	seen := map[string]bool{}
+	for _, base := range bases {
 		func() {
 			defer func() { recover() }()
 			b := x.eval(base, env)
@@ -360,10 +394,28 @@ func (x *fx) evalQuant(e *Expr, env *specEnv) *Val {
 					off = ptrOff(b.S)
 				}
 			}
-			if off != "" {
-				bv = &Val{T: tInt, S: x.isub(name, off), AbsIdx: name, AbsOff: off}
+			if off != "" && !seen[off] {
+				seen[off] = true
+				offs = append(offs, off)
 			}
 		}()
+	}
+	if len(offs) == 0 {
+		offs = []string{""}
+	}
+	var variants []string
+	for _, off := range offs {
+		variants = append(variants, x.evalQuantWith(e, env, off))
+	}
+	return &Val{T: tBool, S: x.and(variants...)}
+}
+
+func (x *fx) evalQuantWith(e *Expr, env *specEnv, off string) string {
+	q := e.Op
+	name := "|" + e.Name + "|"
+	bv := &Val{T: tInt, S: name}
+	if off != "" {
+		bv = &Val{T: tInt, S: x.isub(name, off), AbsIdx: name, AbsOff: off}
 	}
 	inner := env.withBound(e.Name, bv)
 	var body string
@@ -380,7 +432,7 @@ func (x *fx) evalQuant(e *Expr, env *specEnv) *Val {
 	} else {
 		body = x.evalBool(e.Args[0], inner)
 	}
-	return &Val{T: tBool, S: fmt.Sprintf("(%s ((%s %s)) %s)", q, name, x.idxSort(), body)}
+	return fmt.Sprintf("(%s ((%s %s)) %s)", q, name, x.idxSort(), body)
 }
 
 // rowIndex returns the absolute row index off+i, using the bound variable's
@@ -399,7 +451,7 @@ func (x *fx) evalField(e *Expr, env *specEnv) *Val {
 			if imp.Name() == id.Name {
 				obj := imp.Scope().Lookup(e.Name)
 				if c, ok := obj.(*types.Const); ok {
-					return x.constVal(c.Val(), c.Type().Underlying())
+					return x.pkgConst(c)
 				}
 				panic(specErr("unknown constant " + id.Name + "." + e.Name))
 			}
@@ -534,6 +586,9 @@ func (x *fx) evalCall(e *Expr, env *specEnv) *Val {
 			// fresh(x): x was allocated by this activation (not reachable from the caller's state)
 			v := x.eval(args[0], env)
 			return &Val{T: tBool, S: "(>= " + x.refOf(v) + " " + x.top0 + ")"}
+		case "disjoint":
+			a, b := x.eval(args[0], env), x.eval(args[1], env)
+			return &Val{T: tBool, S: "(not (= " + x.refOf(a) + " " + x.refOf(b) + "))"}
 		case "isnan":
 			v := x.eval(args[0], env)
 			return &Val{T: tBool, S: "(fp.isNaN " + v.S + ")"}
@@ -573,9 +628,25 @@ func (x *fx) evalCall(e *Expr, env *specEnv) *Val {
 				return x.pureFnCall(fv, sig, avs)
 			}
 		}
+		// package-level Go function declared pure in this contract
+		if env.pkg != nil {
+			if fo, ok := env.pkg.Scope().Lookup(f.Name).(*types.Func); ok && x.c.Pure[f.Name] {
+				return x.pureGoFunc(fo, args, env)
+			}
+		}
 		panic(specErr("unknown function " + f.Name))
 	}
 	if f.Op == "field" {
+		if id := f.Args[0]; id.Op == "id" && env.pkg != nil && env.look(id.Name) == nil && env.bound[id.Name] == nil {
+			for _, imp := range env.pkg.Imports() {
+				if imp.Name() == id.Name {
+					if fo, ok := imp.Scope().Lookup(f.Name).(*types.Func); ok && (x.c.Pure[f.Name] || x.c.Pure[id.Name+"."+f.Name]) {
+						return x.pureGoFunc(fo, args, env)
+					}
+					panic(specErr("function " + id.Name + "." + f.Name + " is not declared pure in this contract"))
+				}
+			}
+		}
 		// method call on a value: pure method UF
 		recv := x.eval(f.Args[0], env)
 		var avs []*Val
@@ -730,6 +801,52 @@ func (x *fx) applySpec(sf *SpecFn, args []*Expr, env *specEnv) *Val {
 		vals = append(vals, x.typed(x.eval(a, env), pt))
 	}
 	rt := x.parseTypeString(sf.Ret, pkg)
+	if sf.Body == nil || sf.Rec || x.hidden(sf.Name) {
+		// opaque application: an uninterpreted function of the arguments and of
+		// the memory rows reachable through slice/pointer arguments (the body
+		// reads memory only through its parameters; checked syntactically)
+		if sf.Body != nil {
+			if err := x.g.checkHideable(sf, map[string]bool{}); err != nil {
+				panic(specErr("hide " + sf.Name + ": " + err.Error()))
+			}
+			x.abstracted["spec function "+sf.Name+" applied opaquely (hide)"] = true
+		}
+		var sorts, terms []string
+		key := ""
+		for _, v := range vals {
+			sorts = append(sorts, x.sortOf(v.T))
+			terms = append(terms, v.S)
+			m := env.mem
+			if v.M != nil {
+				m = v.M
+			}
+			var et types.Type
+			var ref string
+			switch u := v.T.Underlying().(type) {
+			case *types.Slice:
+				et, ref = u.Elem(), slBase(v.S)
+			case *types.Pointer:
+				et, ref = u.Elem(), ptrRef(v.S)
+			}
+			if et != nil {
+				for _, mn := range x.elemMems(et) {
+					sorts = append(sorts, fmt.Sprintf("(Array %s %s)", x.idxSort(), x.memSort[mn]))
+					terms = append(terms, fmt.Sprintf("(select %s %s)", x.resolve(m, mn), ref))
+					key += "." + strings.TrimPrefix(mn, "M.")
+				}
+			}
+		}
+		fname := "|hidden." + sf.Name + key + "|"
+		if !x.declSeen[fname] {
+			x.declareFun(fname, sorts, x.sortOf(rt))
+			x.assume(x.ufValidAxiom(fname, sorts, rt))
+		}
+		x.usedSpecs[sf.Name] = true
+		if len(terms) == 0 {
+			return &Val{T: rt, S: fname}
+		}
+		return &Val{T: rt, S: "(" + fname + " " + strings.Join(terms, " ") + ")"}
+	}
 	if sf.Body != nil && !sf.Rec {
 		// inline (macro) expansion: parameters are bound, memory is the caller's
 		inner := *env
@@ -752,20 +869,75 @@ func (x *fx) applySpec(sf *SpecFn, args []*Expr, env *specEnv) *Val {
 		r := x.eval(sf.Body, &inner)
 		return x.typed(r, rt)
 	}
-	// uninterpreted (axiomatised) function of its arguments; slices/pointers
-	// additionally depend on memory, which is not modelled for UFs: only scalars allowed
-	var sorts, terms []string
-	for _, v := range vals {
-		sorts = append(sorts, x.sortOf(v.T))
-		terms = append(terms, v.S)
+	panic(specErr("spec function " + sf.Name + " cannot be applied"))
+}
+
+func (x *fx) hidden(name string) bool {
+	return x.hide != nil && x.hide[name]
+}
+
+// checkHideable: the body of a spec function may be hidden behind an
+// uninterpreted function of (arguments, rows of its slice/pointer arguments)
+// only if every memory read in the body goes through a parameter (directly or
+// via an element pointer handed to another hideable spec function).
+func (g *Gen) checkHideable(sf *SpecFn, seen map[string]bool) error {
+	if seen[sf.Name] {
+		return nil
 	}
-	fname := "|spec." + sf.Name + "|"
-	x.declareFun(fname, sorts, x.sortOf(rt))
-	x.usedSpecs[sf.Name] = true
-	if len(terms) == 0 {
-		return &Val{T: rt, S: fname}
+	seen[sf.Name] = true
+	params := map[string]bool{}
+	for _, p := range sf.Params {
+		params[p.Name] = true
 	}
-	return &Val{T: rt, S: "(" + fname + " " + strings.Join(terms, " ") + ")"}
+	var walk func(e *Expr, bound map[string]bool) error
+	root := func(e *Expr) *Expr {
+		for e != nil && (e.Op == "index" || e.Op == "slice" || e.Op == "field") {
+			e = e.Args[0]
+		}
+		return e
+	}
+	walk = func(e *Expr, bound map[string]bool) error {
+		if e == nil {
+			return nil
+		}
+		switch e.Op {
+		case "index", "slice", "field":
+			r := root(e)
+			if r == nil || r.Op != "id" || !(params[r.Name] || bound[r.Name]) {
+				return fmt.Errorf("memory read %s is not rooted at a parameter", e)
+			}
+		case "old":
+			return fmt.Errorf("old() inside a hidden spec function")
+		case "forall", "exists":
+			nb := map[string]bool{e.Name: true}
+			for k := range bound {
+				nb[k] = true
+			}
+			for _, a := range e.Args {
+				if err := walk(a, nb); err != nil {
+					return err
+				}
+			}
+			return nil
+		case "call":
+			if f := e.Args[0]; f.Op == "id" {
+				if sf2 := g.lookupSpec(sf.Pkg, f.Name); sf2 != nil && sf2.Body != nil {
+					if err := g.checkHideable(sf2, seen); err != nil {
+						return err
+					}
+				}
+			} else if f.Op == "field" {
+				return fmt.Errorf("method call %s inside a hidden spec function", e)
+			}
+		}
+		for _, a := range e.Args {
+			if err := walk(a, bound); err != nil {
+				return err
+			}
+		}
+		return nil
+	}
+	return walk(sf.Body, map[string]bool{})
 }
 
 func (x *fx) dbgNames() string {
@@ -778,4 +950,25 @@ func (x *fx) dbgNames() string {
 		s += "]"
 	}
 	return s
+}
+
+// pkgConst: a package-level constant used in a contract; untyped integer
+// constants stay untyped so that they adopt the type of their context.
+func (x *fx) pkgConst(c *types.Const) *Val {
+	if b, ok := c.Type().(*types.Basic); ok && b.Kind() == types.UntypedInt {
+		return &Val{T: tUntypedInt, S: c.Val().ExactString()}
+	}
+	return x.constVal(c.Val(), c.Type())
+}
+
+// pureGoFunc applies a Go function that the contract declares pure as an
+// uninterpreted function of its arguments (same symbol as calls in the code).
+func (x *fx) pureGoFunc(fo *types.Func, args []*Expr, env *specEnv) *Val {
+	sig := fo.Type().(*types.Signature)
+	var avs []*Val
+	for i, a := range args {
+		avs = append(avs, x.typed(x.eval(a, env), sig.Params().At(i).Type()))
+	}
+	fv := &Val{T: sig, S: fmt.Sprint(x.g.funcIDByName(fo.FullName()))}
+	return x.pureFnCall(fv, sig, avs)
 }
